@@ -247,6 +247,9 @@ fn gen_c07(seed: u64, tier: Tier) -> ResolvePlan {
         wildcards: true,
         out_of_zone_ns: r.chance(0.7),
         ttl_choices: r.pick(&ttl_sets).to_vec(),
+        // two siblings serving each other need the parent to send sibling glue
+        mutual_sibling_ns: knobs.server.sibling_glue && r.chance(0.6),
+        zero_ttl_outside_ns_addresses: 0,
     };
     // address families: mostly v4, sometimes dual/v6 with a matching mode
     let (fam, mode) = match r.below(6) {
@@ -355,7 +358,26 @@ pub fn depends_on_dead_delegation(plan: &ResolvePlan, obs: &Observations, q: &QO
                     }
             })
         });
-        in_cache || in_local
+        // ... or handed over in a reply of this very resolution (glue, an answer):
+        // a resolver that fails with the address in its hands has another problem
+        // (and with a TTL that has at least a second left when the resolution ends:
+        // the cache serves nothing younger, see C05's level note)
+        let ends_ms = obs.exchanges[q.exchanges.clone()].iter().map(|e| e.at_ms + e.delay_ms).max().unwrap_or(0);
+        let handed_over = obs.exchanges[q.exchanges.clone()].iter().any(|e| {
+            e.acceptable()
+                && e.reply.as_ref().is_some_and(|m| {
+                    m.answers.iter().chain(m.additional.iter()).any(|rr| {
+                        u64::from(rr.ttl) * 1000 >= ends_ms.saturating_sub(e.at_ms) + 2000
+                            && universe::names_equal(&rr.name.to_dotted_string(), host)
+                            && match rr.rtype_with_data {
+                                RecordTypeWithData::A { .. } => v4_ok,
+                                RecordTypeWithData::AAAA { .. } => v6_ok,
+                                _ => false,
+                            }
+                    })
+                })
+        });
+        in_cache || in_local || handed_over
     };
     // aliases seen in this resolution or held in the cache: their targets are needed too
     let mut aliases: Vec<(String, String)> = Vec::new();
@@ -373,6 +395,73 @@ pub fn depends_on_dead_delegation(plan: &ResolvePlan, obs: &Observations, q: &QO
             aliases.push((c.rr.name.to_dotted_string(), cname.to_dotted_string()));
         }
     }
+    // Dead domains: an NS set (live in the cache, or named by a referral of this very
+    // resolution) none of whose hosts has a usable address, and every one of whose
+    // hosts could only be looked up through a dead domain again (itself - servers
+    // inside the zone they serve - or, in a circle, another: `com. NS ns1.net.` and
+    // `net. NS ns1.com.` with both addresses expired) or is the very address question
+    // in progress (which loop detection refuses to ask again).  The greatest such
+    // set: start from all address-less sets and strike out those with a host that
+    // can still be looked up.
+    let ns_of = |owner: &str| -> Vec<String> {
+        let mut hosts = live_ns(owner);
+        for (o, h) in &referred {
+            if universe::names_equal(o, owner) && !hosts.iter().any(|x| universe::names_equal(x, h)) {
+                hosts.push(h.clone());
+            }
+        }
+        hosts
+    };
+    let mut ns_owners: Vec<String> = q
+        .cache_after
+        .iter()
+        .chain(q.cache_before.iter())
+        .filter(|c| c.remaining_ns >= SEC && matches!(c.rr.rtype_with_data, RecordTypeWithData::NS { .. }))
+        .map(|c| c.rr.name.to_dotted_string())
+        .chain(referred.iter().map(|(o, _)| o.clone()))
+        .collect();
+    ns_owners.sort();
+    ns_owners.dedup();
+    // the question in progress is an address question for this host, and no address
+    // question of another type could stand in for it
+    let in_progress = |host: &str| -> bool {
+        if !universe::names_equal(host, &q.question.name.to_dotted_string()) {
+            return false;
+        }
+        let fams: Vec<&str> = plan.universe.host_addresses(host).iter().map(|r| if r.rtype() == "A" { "A" } else { "AAAA" }).collect();
+        let other_usable = |other: &str, ok: bool| ok && fams.contains(&other);
+        match q.question.qtype {
+            QueryType::Record(RecordType::A) => v4_ok && !other_usable("AAAA", v6_ok),
+            QueryType::Record(RecordType::AAAA) => v6_ok && !other_usable("A", v4_ok),
+            _ => false,
+        }
+    };
+    let enclosing = |host: &str| -> Option<String> {
+        let mut anc = Some(host.to_string());
+        while let Some(a) = anc {
+            if !ns_of(&a).is_empty() {
+                return Some(a);
+            }
+            anc = universe::parent(&a);
+        }
+        None
+    };
+    let mut dead: Vec<String> = ns_owners
+        .iter()
+        .filter(|a| !ns_of(a).iter().any(|h| has_address(h) && !in_progress(h)))
+        .cloned()
+        .collect();
+    loop {
+        let snapshot = dead.clone();
+        dead.retain(|a| {
+            ns_of(a).iter().all(|h| {
+                in_progress(h) || enclosing(h).is_some_and(|d| snapshot.iter().any(|x| universe::names_equal(x, &d)))
+            })
+        });
+        if dead.len() == snapshot.len() {
+            break;
+        }
+    }
     let mut needed: Vec<String> = vec![q.question.name.to_dotted_string()];
     if let Err(ResolutionError::DeadEnd { question }) = &q.result {
         // the resolver says which (alias target) question it could not answer
@@ -388,11 +477,10 @@ pub fn depends_on_dead_delegation(plan: &ResolvePlan, obs: &Observations, q: &QO
         let mut anc = Some(needed[i].clone());
         while let Some(a) = anc {
             let hosts = live_ns(&a);
+            if dead.iter().any(|x| universe::names_equal(x, &a)) {
+                return true;
+            }
             if !hosts.is_empty() {
-                let all_inside = hosts.iter().all(|h| universe::under(h, &a));
-                if all_inside && !hosts.iter().any(|h| has_address(h)) {
-                    return true;
-                }
                 for h in hosts {
                     if !needed.contains(&h) {
                         needed.push(h);
@@ -678,6 +766,9 @@ fn gen_c18(seed: u64, _index: u64, tier: Tier) -> ResolvePlan {
         wildcards: false,
         out_of_zone_ns: r.chance(0.8),
         ttl_choices: r.pick(&ttl_sets).to_vec(),
+        mutual_sibling_ns: false,
+        // addresses of out-of-zone servers that can be used but never cached
+        zero_ttl_outside_ns_addresses: *r.pick(&[0u8, 0, 30, 100]),
     };
     knobs.protocol_mode = (*r.pick(&["only-v4", "prefer-v4", "prefer-v6", "only-v6"])).to_string();
     knobs.upstream_port = *r.pick(&[53u16, 53, 5353, 1053, 40000]);
@@ -766,6 +857,19 @@ fn oracle_c18(plan: &ResolvePlan, obs: &Observations) -> RunResult {
     if !forwarding && (mode == "prefer-v4" || mode == "prefer-v6") {
         let pref_v4 = mode == "prefer-v4";
         let pref_type = if pref_v4 { "A" } else { "AAAA" };
+        for e in &obs.exchanges {
+            let hit = e.acceptable()
+                && e.reply.as_ref().is_some_and(|m| {
+                    m.answers.iter().any(|a| {
+                        a.ttl == 0
+                            && host_of.values().any(|h| universe::names_equal(h, &a.name.to_dotted_string()))
+                            && crate::util::show_data(&a.rtype_with_data).starts_with(&format!("{pref_type} "))
+                    })
+                });
+            if hit {
+                bump(&mut res.stats, "probe.preferred_family_ttl0_address_of_a_name_server_looked_up");
+            }
+        }
         for (i, t) in obs.trace.iter().enumerate() {
             let is_pref = t.ip.is_ipv4() == pref_v4;
             bump(&mut res.stats, if is_pref { "probe.contacted_preferred_family" } else { "probe.contacted_other_family" });
@@ -786,11 +890,41 @@ fn oracle_c18(plan: &ResolvePlan, obs: &Observations) -> RunResult {
                     .iter()
                     .any(|r| !r.wild && universe::names_equal(&r.owner, host) && r.rtype() == pref_type)
             });
-            if in_cache || in_local {
+            // ... or did it just look one up (a TTL-0 record is never cached, but it is
+            // held for the transaction that asked for it): the latest earlier
+            // exchange of this question that asked for the host's preferred-family
+            // address was answered with one, and the host has not been contacted since
+            let in_hand = {
+                let mut found = false;
+                for e in obs.exchanges.iter().rev() {
+                    if e.ctx != t.ctx || e.at_ms > t.at_ms {
+                        continue;
+                    }
+                    // a contact to this very host ends the search
+                    if host_of.get(&e.to.ip()) == Some(host) {
+                        break;
+                    }
+                    let asked = e.request.as_ref().and_then(|m| m.questions.first()).is_some_and(|q| {
+                        universe::names_equal(&q.name.to_dotted_string(), host) && show_qtype(q.qtype) == pref_type
+                    });
+                    if asked && e.acceptable() {
+                        found = e.reply.as_ref().is_some_and(|m| {
+                            m.answers.iter().any(|a| {
+                                a.ttl == 0
+                                    && universe::names_equal(&a.name.to_dotted_string(), host)
+                                    && crate::util::show_data(&a.rtype_with_data).starts_with(&format!("{pref_type} "))
+                            })
+                        });
+                        break;
+                    }
+                }
+                found
+            };
+            if in_cache || in_local || in_hand {
                 res.violations.push(
                     Violation::new("c18.non_preferred_family_despite_held_address")
                         .fact("mode", mode)
-                        .fact("held_in", if in_local { "local" } else { "cache" })
+                        .fact("held_in", if in_local { "local" } else if in_cache { "cache" } else { "lookup" })
                         .detail(json!({
                             "host": host, "contacted": t.ip.to_string(), "question": t.question, "ctx": t.ctx
                         })),
@@ -1309,6 +1443,7 @@ fn gen_c10(seed: u64, _index: u64, tier: Tier) -> ResolvePlan {
             u.zones[z].records.push(rec);
         }
     };
+    let decoys: Vec<bool> = (0..=len).map(|_| r.chance(0.2)).collect();
     for i in 0..=len {
         let target: Option<String> = if i < len {
             Some(names[i + 1].clone())
@@ -1336,7 +1471,14 @@ fn gen_c10(seed: u64, _index: u64, tier: Tier) -> ResolvePlan {
             None => universe::Rec::new(&names[i], data, 3600),
         };
         match target {
-            Some(t) => put(src_of[i], rec(&format!("CNAME {t}")), &mut u),
+            Some(t) => {
+                put(src_of[i], rec(&format!("CNAME {t}")), &mut u);
+                // an alias that was re-pointed upstream while its old record is still
+                // cached: two aliases under one owner, the first one is followed
+                if src_of[i] == "cache" && decoys[i] {
+                    put("cache", universe::Rec::new(&names[i], &format!("CNAME old{i}.cached.test."), 3600), &mut u);
+                }
+            }
             None => {
                 for d in &final_data {
                     put(src_of[i], rec(d), &mut u);
